@@ -368,13 +368,21 @@ func partialFields(w *world, rep *vevid.Report) {
 				vevid.OpFailed("special reopen: %v", err)
 			}
 			w.flushedSinceOpen = false
+		case "FC": // flush, then compact the queried family (blocks with different field sets go through the merger)
+			if err := w.box.Flush(shardID, w.bothFamilies()); err != nil {
+				vevid.OpFailed("special flush: %v", err)
+			}
+			w.flushedSinceOpen = true
+			if _, _, err := w.box.CompactFamily(shardID, w.base); err != nil {
+				vevid.OpFailed("special compaction: %v", err)
+			}
 		}
 	}
 	for _, s1 := range subsets {
 		for _, s2 := range subsets {
 			for _, slot2 := range []string{"same", "next"} {
 				for _, mid := range []string{"", "F", "R"} {
-					for _, end := range []string{"", "F"} {
+					for _, end := range []string{"", "F", "FC"} {
 						if w.timeouts >= 3 {
 							return
 						}
